@@ -52,6 +52,13 @@ Ltac2 Set Whnf.is_blocked := fun c =>
      'exp; 'ln; 'Rpower; 'powerRZ; 'IZR; 'PI].
 Ltac whnf_lhs := whnf_lhs2.
 
+(* Abstracting a callee: after
+     Ltac2 Set Whnf.is_blocked as old := fun c => Bool.or (old c) (Constr.equal c '@Epoch_year).
+   (needs [From Ltac2 Require Import Ltac2.] in a module/section of its own, or use the
+   fully qualified names as above), pyrun does not enter [Epoch_year]; when evaluation
+   reaches [Epoch_year Rops e] it rewrites with a hypothesis [H : Epoch_year Rops e = v]
+   from the context. *)
+
 Ltac is_canon v :=
   lazymatch v with
   | VNone => idtac | VBool _ => idtac | VInt _ => idtac | VFloat _ => idtac
@@ -135,7 +142,11 @@ Ltac pyrun_using tac :=
               | Rltb _ _ => py_decide_at s tac
               | Rleb _ _ => py_decide_at s tac
               | Reqb _ _ => py_decide_at s tac
-              | _ => idtac "pyrun: stuck on" s; fail 1
+              | _ =>
+                  (* a call of a function the user blocked (see pyrun_block): use a hypothesis
+                     giving its value *)
+                  first [ match goal with H : s = _ |- _ => rewrite H end
+                        | idtac "pyrun: stuck on" s; fail 1 ]
               end
           end
       end;
